@@ -1,9 +1,18 @@
-(* C04 -- position key.  Proved: the minimum distance of the key code on the tables regenerated from zobrist.rs.
-   Proved as well: the null move keeps incremental = recomputed.
-   PARTIAL: "incremental = recomputed" for real moves and "key = XOR of the features present" are checked by the correspondence
-   run (every legal move of sampled positions, whole play-outs), their proofs are not closed yet. *)
+(* C04 -- position key.
+   Proved:
+   * the key recomputed from scratch is a function of the 8x8 specification state alone (KeySpec.spec_key of
+     Abs.abs_state): it cannot depend on the perspective the position is stored from, on the move counters, or on the
+     path that led to the position;
+   * the key predicted for a move (zobrist.rs predict_hash) is the key recomputed on the position after the move, and
+     makemove stores exactly that prediction: the invariant "stored key = recomputed key" survives every move of every
+     kind (quiet, capture, double push, en passant, promotion, castling in both geometries) that passes the executable
+     test MakeStages.key_move_b, and every null move;
+   * the minimum distance of the key code on the tables regenerated from zobrist.rs (positions differing in 1..4
+     features have different keys).
+   The correspondence run evaluates key_move_b (it must be true) on every legal move it generates; that every legal move
+   of every position of D passes it is not proved. *)
 From Coq Require Import NArith ZArith List Bool.
-From Rawr Require Import Consts Bits Magic Position MoveGen MakeMove KeyFacts HashFacts.
+From Rawr Require Import Consts Bits Magic Position MoveGen MakeMove MakeStages Rules Abs KeySpec KeyFacts HashFacts KeyAbs KeyMove.
 Import ListNotations.
 Local Open Scope N_scope.
 
@@ -21,6 +30,39 @@ Proof. exact allkeys_length. Qed.
 Theorem C04_makenull_hash : forall p, BB8 p -> hash p = calculate_hash p -> hash (makenull p) = calculate_hash (makenull p).
 Proof. exact makenull_hash. Qed.
 
+(* the recomputed key is the specification's key of the abstract state: XOR of one key per man on its absolute square,
+   one per en-passant file, one per castling right held, one when Black is to move *)
+Theorem C04_key_is_a_function_of_the_position :
+  forall p, BB8 p -> WF p -> (forall e, ep p = Some e -> e < 64) -> calculate_hash p = spec_key (abs_state p).
+Proof. exact key_of_abs. Qed.
+
+(* the predicted key is the key of the position after the move; u = whether makemove also stores it *)
+Theorem C04_predicted_key_is_recomputed_key :
+  forall u p m, key_move_b p m = true -> predict_hash p m = calculate_hash (makemove u p m).
+Proof. exact predict_correct. Qed.
+
+Theorem C04_makemove_stores_prediction : forall p m, hash (makemove true p m) = predict_hash p m.
+Proof. exact makemove_stores_prediction. Qed.
+
+(* one step of the invariant over move sequences *)
+Theorem C04_key_invariant_step :
+  forall p m, key_move_b p m = true -> hash (makemove true p m) = calculate_hash (makemove true p m).
+Proof. exact key_invariant_step. Qed.
+
+(* non-vacuous: the start position, a double push, a knight move; castling and en passant reached by play *)
+Definition after (ms : list Mv) : Position := fold_left (makemove true) ms startpos.
+Definition castle_line : list Mv :=
+  [mkMv 12 28 NOPIECE; mkMv 12 28 NOPIECE; mkMv 6 21 NOPIECE; mkMv 6 21 NOPIECE; mkMv 5 26 NOPIECE; mkMv 5 26 NOPIECE].
+Example C04_premises_example :
+  key_move_b startpos (mkMv 12 28 NOPIECE) = true /\ key_move_b startpos (mkMv 6 21 NOPIECE) = true
+  /\ key_move_b (after castle_line) (mkMv 4 7 NOPIECE) = true
+  /\ key_move_b (after [mkMv 12 28 NOPIECE; mkMv 8 16 NOPIECE; mkMv 28 36 NOPIECE; mkMv 11 27 NOPIECE]) (mkMv 36 43 NOPIECE) = true.
+Proof. repeat split; vm_compute; reflexivity. Qed.
+
 Print Assumptions C04_key_min_distance.
 Print Assumptions C04_makenull_hash.
 Print Assumptions C04_key_table_size.
+Print Assumptions C04_key_is_a_function_of_the_position.
+Print Assumptions C04_predicted_key_is_recomputed_key.
+Print Assumptions C04_makemove_stores_prediction.
+Print Assumptions C04_key_invariant_step.
